@@ -265,4 +265,308 @@ theorem iinsertEntry_atomic (t : ITier Int) (hwf : t.WF) (x : Iv Int) (mode : In
           unfold ITier.crop; simp [show x.e ≤ x.s by omega]
         simp [icollisions, this] at hne
 
+/-! ## Textgrid: addTier -/
+
+theorem dictSet_fresh {d : List (AnyTier Int)} {t : AnyTier Int} (h : t.name ∉ d.map (·.name)) : dictSet d t = d ++ [t] := by
+  unfold dictSet
+  have : d.any (·.name == t.name) = false := by
+    rw [List.any_eq_false]
+    intro u hu hc
+    exact h (List.mem_map.2 ⟨u, hu, by simpa using hc⟩)
+  simp [this]
+
+/-- in a dict (unique keys) looking a member up by its own name finds that member -/
+theorem find_of_mem {D : List (AnyTier Int)} (hnd : (D.map (·.name)).Nodup) {u : AnyTier Int} (hu : u ∈ D) :
+    D.find? (·.name == u.name) = some u := by
+  induction D with
+  | nil => cases hu
+  | cons a as ih =>
+    simp only [List.map_cons, List.nodup_cons] at hnd
+    rcases List.mem_cons.1 hu with rfl | hm
+    · simp
+    · have hne : a.name ≠ u.name := fun h => hnd.1 (h ▸ List.mem_map.2 ⟨u, hm, rfl⟩)
+      simp [List.find?_cons, hne, ih hnd.2 hm]
+
+/-- rebuilding the dict in a given key order (`OrderedDict((n, self._tierDict[n]) for n in names)`) -/
+theorem lookup_all (D : List (AnyTier Int)) (hnd : (D.map (·.name)).Nodup) (lo hi : Option Int)
+    (l : List (AnyTier Int)) (hl : ∀ u ∈ l, u ∈ D) :
+    (l.map (·.name)).mapM (Tg.getTier ⟨D, lo, hi⟩) = .ok l := by
+  induction l with
+  | nil => rfl
+  | cons a as ih =>
+    have h1 : Tg.getTier ⟨D, lo, hi⟩ a.name = .ok a := by
+      unfold Tg.getTier; simp only [find_of_mem hnd (hl a (by simp))]
+    simp only [List.map_cons, List.mapM_cons, h1, ih (fun u hu => hl u (by simp [hu]))]
+    rfl
+
+theorem map_pyListInsert {β γ : Type} (f : β → γ) (l : List β) (i : Int) (x : β) :
+    (pyListInsert l i x).map f = pyListInsert (l.map f) i (f x) := by
+  simp [pyListInsert, List.map_take, List.map_drop]
+
+/-- L117-134: the checks write nothing, whatever they decide -/
+theorem exec_addTierChecks (g : Tg Int) (t : AnyTier Int) (rep : Report) :
+    exec (addTierChecks t rep) g =
+      (if t.name ∈ g.names then .error .TierNameExistsError
+       else if rep = .error ∧ C12.spanChanges g.lo g.hi t = true then .error .TextgridStateAutoModified else .ok (), g) := by
+  unfold addTierChecks
+  simp only [exec_bind, exec_get, exec_ite, exec_pure, exec_throw, exec_report]
+  by_cases hc : t.name ∈ g.names
+  · simp [hc]
+  · obtain ⟨ts, lo, hi⟩ := g
+    cases lo with
+    | none =>
+      cases hi with
+      | none => cases rep <;> simp [hc, C12.spanChanges]
+      | some h => by_cases c2 : h < t.hi <;> cases rep <;> simp [hc, c2, C12.spanChanges]
+    | some l =>
+      cases hi with
+      | none => by_cases c1 : t.lo < l <;> cases rep <;> simp [hc, c1, C12.spanChanges]
+      | some h => by_cases c1 : t.lo < l <;> by_cases c2 : h < t.hi <;> cases rep <;> simp [hc, c1, c2, C12.spanChanges]
+
+/-- L136-146 on a dict that does not hold the name yet: append, or `list.insert` at the index -/
+theorem exec_addTierStore (g : Tg Int) (hnd : g.names.Nodup) (t : AnyTier Int) (hfresh : t.name ∉ g.names) (idx : Option Int) :
+    exec (addTierStore t idx) g = (.ok (), { g with tiers := C12.insAt g.tiers idx t }) := by
+  have hf : t.name ∉ g.tiers.map (·.name) := hfresh
+  have hnd' : ((g.tiers ++ [t]).map (·.name)).Nodup := by
+    rw [List.map_append, List.nodup_append]
+    refine ⟨hnd, by simp, ?_⟩
+    intro a ha b hb
+    simp at hb; subst hb
+    intro h; exact hf (h ▸ ha)
+  unfold addTierStore
+  cases idx with
+  | none => simp only [exec_bind, exec_get, exec_modify, dictSet_fresh hf, C12.insAt]
+  | some i =>
+    simp only [exec_bind, exec_get, exec_modify, dictSet_fresh hf, exec_liftE, C12.insAt]
+    have : (pyListInsert g.names i t.name).mapM (Tg.getTier ⟨g.tiers ++ [t], g.lo, g.hi⟩) = .ok (pyListInsert g.tiers i t) := by
+      have h1 : pyListInsert g.names i t.name = (pyListInsert g.tiers i t).map (·.name) := by
+        rw [map_pyListInsert]; rfl
+      rw [h1]
+      apply lookup_all _ hnd'
+      intro u hu
+      rcases (C12.mem_pyListInsert g.tiers i t u).1 hu with h | h
+      · simp [h]
+      · simp [h]
+    rw [this]
+
+/-- L148-152 -/
+theorem exec_addTierSpan (g : Tg Int) (t : AnyTier Int) :
+    exec (addTierSpan t) g = (.ok (), { g with lo := some (C12.widenLo g.lo t.lo), hi := some (C12.widenHi g.hi t.hi) }) := by
+  unfold addTierSpan
+  simp only [exec_bind, exec_get, exec_ite, exec_pure, exec_modify]
+  obtain ⟨ts, lo, hi⟩ := g
+  cases lo with
+  | none =>
+    cases hi with
+    | none => simp [C12.widenLo, C12.widenHi]
+    | some h => by_cases c2 : h < t.hi <;> simp [c2, C12.widenLo, C12.widenHi] <;> omega
+  | some l =>
+    cases hi with
+    | none => by_cases c1 : t.lo < l <;> simp [c1, C12.widenLo, C12.widenHi] <;> omega
+    | some h => by_cases c1 : t.lo < l <;> by_cases c2 : h < t.hi <;> simp [c1, c2, C12.widenLo, C12.widenHi] <;> omega
+
+/-- **refinement, Textgrid.addTier** (the state is a dict: unique keys): same outcome as `Tg.addTier`, and when it raises
+(name clash L117, span change under reportingMode='error' L123-134) nothing has been written -/
+theorem exec_addTier (g : Tg Int) (hnd : g.names.Nodup) (t : AnyTier Int) (idx : Option Int) (rep : Report) :
+    exec (addTier t idx rep) g = match g.addTier t idx rep with
+      | .ok g' => (.ok (), g')
+      | .error e => (.error e, g) := by
+  unfold addTier
+  simp only [exec_bind, exec_addTierChecks]
+  by_cases hn : t.name ∈ g.names
+  · rw [C12.addTier_dup g t idx rep hn, if_pos hn]
+  · rw [C12.addTier_fresh g t idx rep hn, if_neg hn]
+    by_cases hr : rep = .error ∧ C12.spanChanges g.lo g.hi t = true
+    · rw [if_pos hr, if_pos hr]
+    · rw [if_neg hr, if_neg hr]
+      simp only [exec_addTierStore g hnd t hn idx]
+      rw [exec_addTierSpan]
+
+/-- (a) for `Textgrid.addTier` -/
+theorem addTier_atomic (g : Tg Int) (hnd : g.names.Nodup) (t : AnyTier Int) (idx : Option Int) (rep : Report)
+    (e : Err) (g' : Tg Int) (h : exec (addTier t idx rep) g = (.error e, g')) : g' = g := by
+  rw [exec_addTier g hnd] at h
+  cases h2 : g.addTier t idx rep <;> rw [h2] at h <;> simp at h
+  exact h.2.symm
+
+/-! ## Textgrid: removeTier, renameTier, replaceTier -/
+
+/-- `Textgrid.removeTier`: one write, after the lookup -/
+theorem exec_removeTier_raw (g : Tg Int) (n : String) :
+    exec (removeTier n) g = match g.tiers.find? (·.name == n) with
+      | some t => (.ok t, { g with tiers := C12.dropName g.tiers n })
+      | none => (.error .KeyError, g) := by
+  unfold removeTier
+  simp only [exec_bind, exec_get]
+  cases g.tiers.find? (·.name == n) <;> rfl
+
+theorem find_isSome_of_mem {l : List (AnyTier Int)} {n : String} (h : n ∈ C12.namesOf l) :
+    ∃ t, l.find? (·.name == n) = some t := by
+  cases hf : l.find? (·.name == n) with
+  | none => exact absurd h (C12.find_none hf)
+  | some t => exact ⟨t, rfl⟩
+
+/-- **refinement, Textgrid.removeTier** -/
+theorem exec_removeTier (g : Tg Int) (n : String) :
+    (exec (removeTier n) g).2 = (match g.removeTier n with | .ok g' => g' | .error _ => g) ∧
+    ((exec (removeTier n) g).1.toBool = (g.removeTier n).toBool) ∧
+    (∀ e, (exec (removeTier n) g).1 = .error e ↔ g.removeTier n = .error e) := by
+  rw [exec_removeTier_raw, C12.removeTier_eq]
+  by_cases h : n ∈ g.names
+  · obtain ⟨t, ht⟩ := find_isSome_of_mem (l := g.tiers) h
+    simp [ht, h, Except.toBool]
+  · have : g.tiers.find? (·.name == n) = none := by
+      cases hf : g.tiers.find? (·.name == n) with
+      | none => rfl
+      | some t => exact absurd (List.mem_map.2 ⟨t, (C12.find_name hf).1, (C12.find_name hf).2⟩) h
+    simp [this, h, Except.toBool]
+
+/-- (a) for `Textgrid.removeTier` -/
+theorem removeTier_atomic (g : Tg Int) (n : String) (e : Err) (g' : Tg Int)
+    (h : exec (removeTier n) g = (.error e, g')) : g' = g := by
+  rw [exec_removeTier_raw] at h
+  cases hf : g.tiers.find? (·.name == n) <;> rw [hf] at h <;> simp at h
+  exact h.2.symm
+
+theorem indexOf_eq (g : Tg Int) (n : String) : g.indexOf n = C12.idxOf g.tiers n := rfl
+
+/-- the restore block of `replaceTier` (L540-545) and the indexed branch of `addTier` (L139-146) share this: putting a tier
+under a fresh key at the end and rebuilding the dict with that key moved to position `k` is `list.insert` on the values -/
+theorem rebuild_insert (d : List (AnyTier Int)) (hnd : (C12.namesOf d).Nodup) (u : AnyTier Int) (hf : u.name ∉ C12.namesOf d)
+    (lo hi : Option Int) (k : Int) :
+    (pyListInsert (C12.namesOf d) k u.name).mapM (Tg.getTier ⟨d ++ [u], lo, hi⟩) = .ok (pyListInsert d k u) := by
+  have hnd' : ((d ++ [u]).map (·.name)).Nodup := by
+    rw [List.map_append, List.nodup_append]
+    refine ⟨hnd, by simp, ?_⟩
+    intro a ha b hb
+    simp at hb; subst hb
+    intro h; exact hf (h ▸ ha)
+  have h1 : pyListInsert (C12.namesOf d) k u.name = (pyListInsert d k u).map (·.name) := by
+    rw [map_pyListInsert]; rfl
+  rw [h1]
+  apply lookup_all _ hnd'
+  intro v hv
+  rcases (C12.mem_pyListInsert d k u v).1 hv with h | h
+  · simp [h]
+  · simp [h]
+
+/-- **refinement + atomicity, Textgrid.replaceTier**: same outcome as `Tg.replaceTier`; when `addTier` raises, the
+`except` block (L538-546) puts the old tier back under its key AND at its old position: the textgrid is as before -/
+theorem exec_replaceTier (g : Tg Int) (hnd : g.names.Nodup) (n : String) (t : AnyTier Int) (rep : Report) :
+    exec (replaceTier n t rep) g = match g.replaceTier n t rep with
+      | .ok g' => (.ok (), g')
+      | .error e => (.error e, g) := by
+  unfold replaceTier Tg.replaceTier
+  simp only [exec_bind, exec_get, indexOf_eq]
+  cases hk : C12.idxOf g.tiers n with
+  | none => rfl
+  | some k =>
+    have hmem : n ∈ C12.namesOf g.tiers := (C12.idxOf_isSome_iff _ _).1 ⟨k, hk⟩
+    obtain ⟨old, hold⟩ := find_isSome_of_mem hmem
+    have hnd1 : (C12.namesOf (C12.dropName g.tiers n)).Nodup := C12.nodup_dropName n hnd
+    have hmem' : n ∈ g.names := hmem
+    rw [C12.removeTier_eq, if_pos hmem']
+    simp only [exec_bind, exec_pure, exec_removeTier_raw, hold, exec_tryCatch]
+    rw [exec_addTier ⟨C12.dropName g.tiers n, g.lo, g.hi⟩ hnd1]
+    show _ = match Tg.addTier ⟨C12.dropName g.tiers n, g.lo, g.hi⟩ t (some (k : Int)) rep with
+      | .ok g' => (Except.ok (), g')
+      | .error e => (.error e, g)
+    cases ha : (Tg.addTier ⟨C12.dropName g.tiers n, g.lo, g.hi⟩ t (some (k : Int)) rep) with
+    | ok g' => rfl
+    | error e =>
+      simp only []
+      have hp : e.isPraatio = true := by
+        rcases C13.addTier_fails_before_mutation _ t _ rep e ha with ⟨_, rfl⟩ | ⟨_, _, rfl⟩ <;> rfl
+      have holdn : old.name = n := (C12.find_name hold).2
+      have hfr : old.name ∉ C12.namesOf (C12.dropName g.tiers n) := by
+        rw [holdn]; intro hm; have := (C12.mem_names_dropName.1 hm); simp at this
+      simp only [hp, if_true, exec_bind, exec_bind', exec_modify, exec_get, dictSet_fresh hfr]
+      have hnames : Tg.names ⟨C12.dropName g.tiers n ++ [old], g.lo, g.hi⟩ = C12.namesOf (C12.dropName g.tiers n) ++ [old.name] := by
+        simp [Tg.names, C12.namesOf]
+      rw [hnames]
+      simp only [List.getLast?_append, List.getLast?_singleton, Option.some_or, List.dropLast_concat]
+      have hback : pyListInsert (C12.dropName g.tiers n) (k : Int) old = g.tiers := by
+        rw [C12.insert_dropName old hnd hk, C12.subst_eq_set old hnd hk]
+        have hg : g.tiers[k]? = some old := by rw [← C12.find_eq_getElem hk]; exact hold
+        obtain ⟨hlt, hge⟩ := List.getElem?_eq_some_iff.1 hg
+        rw [← hge]; exact List.set_getElem_self hlt
+      simp only [exec_bind, exec_pure, exec_liftE, rebuild_insert _ hnd1 old hfr, exec_modify, exec_throw, hback]
+
+/-- (a) for `Textgrid.replaceTier` -/
+theorem replaceTier_atomic (g : Tg Int) (hnd : g.names.Nodup) (n : String) (t : AnyTier Int) (rep : Report)
+    (e : Err) (g' : Tg Int) (h : exec (replaceTier n t rep) g = (.error e, g')) : g' = g := by
+  rw [exec_replaceTier g hnd] at h
+  cases h2 : g.replaceTier n t rep <;> rw [h2] at h <;> simp at h
+  exact h.2.symm
+
+/-- the state `renameTier` leaves behind when it raises: untouched when the lookup (L518) or the clash check (L520) raises,
+WITHOUT the old tier when the re-construction `oldTier.new(newName, …)` of L523 raises after the removal of L522 -/
+def renameErrState (g : Tg Int) (old new : String) : Tg Int :=
+  match g.getTier old with
+  | .error _ => g
+  | .ok _ => if (new != old && g.names.contains new) = true then g else { g with tiers := C12.dropName g.tiers old }
+
+/-- **refinement, Textgrid.renameTier** -/
+theorem exec_renameTier (g : Tg Int) (hnd : g.names.Nodup) (old new : String) :
+    exec (renameTier old new) g = match g.renameTier old new with
+      | .ok g' => (.ok (), g')
+      | .error e => (.error e, renameErrState g old new) := by
+  unfold renameTier Tg.renameTier renameErrState
+  simp only [exec_bind, exec_get, exec_liftE, indexOf_eq]
+  cases hgt : g.getTier old with
+  | error e => rfl
+  | ok t =>
+    have hf : g.tiers.find? (·.name == old) = some t := by
+      unfold Tg.getTier at hgt
+      cases hf : g.tiers.find? (·.name == old) with
+      | none => rw [hf] at hgt; cases hgt
+      | some u => rw [hf] at hgt; cases hgt; rfl
+    have hmem : old ∈ C12.namesOf g.tiers := List.mem_map.2 ⟨t, (C12.find_name hf).1, (C12.find_name hf).2⟩
+    have hmem' : old ∈ g.names := hmem
+    obtain ⟨k, hk⟩ := (C12.idxOf_isSome_iff _ _).2 hmem
+    have hnd1 : (C12.namesOf (C12.dropName g.tiers old)).Nodup := C12.nodup_dropName old hnd
+    simp only [hk, exec_pure, exec_bind, Option.getD_some, bind, Except.bind, exec_bind']
+    by_cases hcl : (new != old && g.names.contains new) = true
+    · simp only [hcl, if_true, exec_throw]; rfl
+    · simp only [hcl, if_false, exec_pure, exec_removeTier_raw, hf, Bool.false_eq_true]
+      rw [C12.removeTier_eq, if_pos hmem']
+      simp only [pure, Except.pure]
+      cases hr : t.renew (name := some new) with
+      | error e => rfl
+      | ok nt =>
+        simp only [exec_liftE_ok]
+        rw [exec_addTier ⟨C12.dropName g.tiers old, g.lo, g.hi⟩ hnd1]
+
+/-- (a) for `Textgrid.renameTier`: the renamed tier is well-formed (C05: every reachable tier is), so its re-construction
+under the new name (L523) cannot raise after the removal (L522); the clash is detected before (L520) -/
+theorem renameTier_atomic (g : Tg Int) (hnd : g.names.Nodup) (old new : String)
+    (hwf : ∀ t, g.getTier old = .ok t → C12.AnyWF t)
+    (e : Err) (g' : Tg Int) (h : exec (renameTier old new) g = (.error e, g')) : g' = g := by
+  rw [exec_renameTier g hnd] at h
+  cases hr : g.renameTier old new with
+  | ok g2 => rw [hr] at h; simp at h
+  | error e' =>
+    rw [hr] at h
+    simp only [Prod.mk.injEq] at h
+    rw [← h.2]
+    unfold renameErrState
+    cases hgt : g.getTier old with
+    | error _ => rfl
+    | ok t =>
+      simp only []
+      split
+      · rfl
+      · rename_i hcl
+        exfalso
+        have hf : g.tiers.find? (·.name == old) = some t := by
+          unfold Tg.getTier at hgt
+          cases hf : g.tiers.find? (·.name == old) with
+          | none => rw [hf] at hgt; cases hgt
+          | some u => rw [hf] at hgt; cases hgt; rfl
+        rw [C12.renameTier_eq g old new t hnd hf, C12.renew_of_wf (hwf t hgt) new] at hr
+        have hc : ¬ (new ≠ old ∧ new ∈ g.names) := by
+          intro ⟨h1, h2⟩; apply hcl; simp [h1, h2]
+        rw [if_neg hc] at hr
+        cases hr
+
 end Imp
